@@ -371,6 +371,36 @@ func (g *VCGen) havocAllBut(pre *State, keep []modLoc) *State {
 		heap := g.so.heapFor(et)
 		facts = append(facts, fmt.Sprintf("(= (select %s %s) (select %s %s))", g.heapTerm(post, heap), sv.T, g.heapTerm(pre, heap), sv.T))
 	}
+	// library iterators/builders created here and only used as receivers of library methods are private too
+	for v, sv := range g.vals {
+		call, ok := v.(*ssa.Call)
+		if !ok || !privateLibObj(call) {
+			continue
+		}
+		pt, ok := call.Type().(*types.Pointer)
+		if !ok {
+			continue
+		}
+		n, ok := pt.Elem().(*types.Named)
+		if !ok {
+			continue
+		}
+		ta := n.TypeArgs()
+		var heap string
+		switch n.Obj().Name() {
+		case "MapIterator":
+			heap, _ = g.mapIterHeap(g.imap(ta.At(0), ta.At(1)))
+		case "ListIterator":
+			heap, _ = g.listIterHeap(g.ilist(ta.At(0)))
+		case "MapBuilder":
+			heap = g.mapBuilderHeap(g.imap(ta.At(0), ta.At(1)))
+		case "ListBuilder":
+			heap = g.listBuilderHeap(g.ilist(ta.At(0)))
+		default:
+			continue
+		}
+		facts = append(facts, fmt.Sprintf("(= (select %s %s) (select %s %s))", g.heapTerm(post, heap), sv.T, g.heapTerm(pre, heap), sv.T))
+	}
 	// captured variables of a closure: the callee does not receive them (assumption: the enclosing function
 	// keeps them local, which is checked there by privateAlloc when it calls out)
 	if g.fn != nil {
@@ -452,4 +482,44 @@ func privateAlloc(al *ssa.Alloc) bool {
 		return true
 	}
 	return ok(al)
+}
+
+// privateLibObj: an iterator/builder of the immutable library that is only ever used as a method receiver
+func privateLibObj(call *ssa.Call) bool {
+	pt, ok := call.Type().(*types.Pointer)
+	if !ok {
+		return false
+	}
+	n, ok := pt.Elem().(*types.Named)
+	if !ok || n.Obj().Pkg() == nil || n.Obj().Pkg().Path() != immPkg {
+		return false
+	}
+	refs := call.Referrers()
+	if refs == nil {
+		return false
+	}
+	for _, r := range *refs {
+		switch x := r.(type) {
+		case *ssa.DebugRef:
+		case *ssa.Call:
+			if len(x.Call.Args) == 0 || x.Call.Args[0] != ssa.Value(call) {
+				return false
+			}
+			for _, a := range x.Call.Args[1:] {
+				if a == ssa.Value(call) {
+					return false
+				}
+			}
+			callee := x.Call.StaticCallee()
+			if callee == nil {
+				return false
+			}
+			if _, _, isImm := immRecv(callee); !isImm {
+				return false
+			}
+		default:
+			return false
+		}
+	}
+	return true
 }
